@@ -15,7 +15,9 @@ RULE = ("(soundness) every node labelled encoding.base64 / decoded.hexadecimal /
         "distinct characters, slash ratio <= 3/32, line-broken), hex 10/11 pairs lower/upper, upper-case hex with an 18-30 digit "
         "prefix, the four call forms with both quote styles, byte arrays: one node covering exactly the encoded text with the "
         "payload as value; -bxor K for K in 0..999 next to both From*String forms and byte arrays: child present iff 1<=K<=255 and "
-        "equal to payload ^ K. distinct_nontrivial = distinct inputs with a judged node / case.")
+        "equal to payload ^ K, also for two conversions under one key and after a decoy buffer stating another key was scanned and "
+        "released (identity-keyed state); completeness cases also run inside CreateObject( ... ) contexts, on a second scan, and "
+        "after decoy histories. distinct_nontrivial = distinct inputs with a judged node / case.")
 ASSUMPTIONS = ["only the accepted side of each acceptance rule is asserted"]
 EXPECTED_WALL = {"quick": 50, "thorough": 400}
 REQUIRED = {"stacks_judged": 187, "c13_b64_bare": 37, "c13_b64_call": 62, "c13_hex_bare": 37, "c13_hex_call": 25, "c13_xor_single": 18,
